@@ -361,7 +361,7 @@ def oversample_piecewise_body(ctx, case):
 @st.composite
 def _end_value(draw, anchor, is_int):
     """explicit end value below, at or above `anchor`, or exactly zero (a falsy but perfectly valid end value)"""
-    kind = draw(st.sampled_from(["below", "below", "above", "above", "at", "zero", "zero", "zero", "zero"]))
+    kind = draw(st.sampled_from(["below", "below", "above", "above", "at", "at", "zero", "zero", "zero", "zero"]))
     if kind == "at":
         return kind, anchor
     if kind == "zero":
